@@ -385,6 +385,24 @@ pub fn c04_scenarios(ns: &[u64]) -> Vec<Scn> {
         s.slow = 2;
         out.push(s);
     }
+    // a consumer of a shared stream has to retry inside one call (its position
+    // check fails) while the sibling and the producer, here one thread, move the
+    // stream and the ring on around it; needs five alternations
+    for &n in ns {
+        if n != 2 {
+            continue;
+        }
+        let b = q(Flavour::B, n, WaitK::Busy);
+        let mut s = Scn::new("c04-retry-inside-one-call-vs-sibling-and-producer", b);
+        s.prefix = prep(St::Full, n, &[R0]);
+        s.prefix.push(opd(CloneH, R0, R1));
+        s.threads = vec![
+            vec![op(TryRecv, R0)],
+            vec![op(TryRecv, R1), opv(TrySend, S0, 1), op(TryRecv, R1), opv(TrySend, S0, 2)],
+        ];
+        s.slow = 1;
+        out.push(s);
+    }
     for s in out.iter_mut() {
         s.tags = &["C04", "C05"];
         s.hang_prop = "C04";
@@ -1393,6 +1411,153 @@ const PAIR_STATES_T: [St; 7] = [
     St::StaleCache,
 ];
 
+/// Role matrix: every pair and triple of roles from a fixed role set, each role
+/// with handles of its own, from two prepared states. Systematic coverage of
+/// *actor combinations* (the seeded changes showed that hand-picked scenarios
+/// miss combinations); low bounds, many scenarios.
+#[derive(Clone, Copy, PartialEq, Eq, Debug)]
+pub enum Role {
+    P1,
+    P2,
+    C1,
+    C2,
+    C3,
+    V,
+    DS,
+    DR,
+    DL,
+    DL2,
+    D0,
+    UL,
+    AS,
+    AS2,
+    CL,
+    CS,
+    CV,
+}
+
+pub fn matrix_scenarios(fl: Flavour, n: u64, max_roles: usize) -> Vec<Scn> {
+    use Role::*;
+    let roles: Vec<Role> = if fl == Flavour::B {
+        vec![P1, P2, C1, C2, C3, V, DS, DR, DL, DL2, D0, UL, AS, AS2, CL, CS, CV]
+    } else {
+        vec![P1, P2, C1, C2, DS, DR, D0, CL, CS]
+    };
+    let ops_of = |r: Role, base: u32| -> Vec<Op> {
+        match r {
+            P1 => vec![opv(TrySend, 0, base + 1), opv(TrySend, 0, base + 2)],
+            P2 => vec![opv(TrySend, 2, base + 1)],
+            C1 => vec![op(TryRecv, 1), op(TryRecv, 1)],
+            C2 => vec![op(TryRecv, 4)],
+            C3 => vec![op(TryRecv, 5)],
+            V => vec![op(TryRecvView, 6)],
+            DS => vec![op(DropH, 3)],
+            DR => vec![op(DropH, 7)],
+            DL => vec![op(DropH, 8)],
+            DL2 => vec![op(DropH, 18)],
+            D0 => vec![op(DropH, 1)],
+            UL => vec![op(Unsub, 8)],
+            AS => vec![opd(AddStream, 11, 12), op(TryRecv, 12)],
+            AS2 => vec![opd(AddStream, 13, 14)],
+            CL => vec![opd(CloneH, 15, 16), op(DropH, 16)],
+            CS => vec![opd(CloneH, 9, 10), opv(TrySend, 10, base + 1), op(DropH, 10)],
+            CV => vec![op(IntoSingle, 17), op(IntoMulti, 17)],
+        }
+    };
+    // what each role needs in the prefix: (op creating its handle)
+    let needs = |r: Role| -> Vec<Op> {
+        match r {
+            P1 | C1 => vec![],
+            P2 => vec![opd(CloneH, 0, 2)],
+            DS => vec![opd(CloneH, 0, 3)],
+            CS => vec![opd(CloneH, 0, 9)],
+            C2 => vec![opd(CloneH, 1, 4)],
+            DR => vec![opd(CloneH, 1, 7)],
+            AS => vec![opd(CloneH, 1, 11)],
+            AS2 => vec![opd(CloneH, 1, 13)],
+            CL => vec![opd(CloneH, 1, 15)],
+            C3 => vec![opd(AddStream, 1, 5)],
+            V => vec![opd(AddStream, 1, 6), op(IntoSingle, 6)],
+            DL | UL => vec![opd(AddStream, 1, 8)],
+            DL2 => vec![opd(AddStream, 1, 8), opd(CloneH, 8, 18)],
+            D0 => vec![],
+            CV => vec![opd(AddStream, 1, 17)],
+        }
+    };
+    let mut combos: Vec<Vec<Role>> = Vec::new();
+    for i in 0..roles.len() {
+        for j in (i + 1)..roles.len() {
+            combos.push(vec![roles[i], roles[j]]);
+            if max_roles >= 3 {
+                for k in (j + 1)..roles.len() {
+                    combos.push(vec![roles[i], roles[j], roles[k]]);
+                }
+            }
+        }
+    }
+    let mut out = Vec::new();
+    for combo in combos {
+        if combo.contains(&DL) && combo.contains(&UL) {
+            continue;
+        }
+        if combo.contains(&D0) && combo.contains(&C1) {
+            continue; // both use the primary receiver handle
+        }
+        if combo.contains(&DL2) && !(combo.contains(&DL) || combo.contains(&UL)) {
+            continue; // the second handle of that stream only matters with the first
+        }
+        // at least one role must move values, or two must change the stream set
+        let traffic = combo.iter().any(|r| matches!(r, P1 | P2 | C1 | C2 | C3 | V | CS | AS | D0));
+        if !traffic {
+            continue;
+        }
+        for st in [St::One, St::Full] {
+            let cfg = q(fl, n, WaitK::Busy);
+            let label: Vec<String> = combo.iter().map(|r| format!("{:?}", r)).collect();
+            let mut s = Scn::new(&format!("mx-{}[{:?}]", label.join("+"), st), cfg);
+            for r in &combo {
+                for o in needs(*r) {
+                    if !s.prefix.contains(&o) {
+                        s.prefix.push(o);
+                    }
+                }
+            }
+            // the state: values queued for every stream that exists by now
+            s.prefix.extend(prep(st, n, &[]));
+            s.threads = combo
+                .iter()
+                .enumerate()
+                .map(|(i, r)| ops_of(*r, 10 * i as u32))
+                .collect();
+            s.tags = &["C06", "C01", "C02", "C03", "C12", "C16", "C17"];
+            s.hang_prop = "C06";
+            s.post = Post::Quiesce;
+            out.push(s);
+        }
+    }
+    out
+}
+
+fn push_matrix(t: &mut Vec<Task>, thorough: bool) {
+    for fl in [Flavour::B, Flavour::M] {
+        for s in matrix_scenarios(fl, 1, 3) {
+            let nt = s.threads.len();
+            let (c, sh) = match (nt, thorough) {
+                (2, false) => (2, 1),
+                (_, false) => (1, 1),
+                (2, true) => (4, 2),
+                (_, true) => (2, 4),
+            };
+            t.push(task_sh(s, c, sh));
+        }
+        if thorough {
+            for s in matrix_scenarios(fl, 2, 2) {
+                t.push(task_sh(s, 3, 2));
+            }
+        }
+    }
+}
+
 /// Deviation bound and shard count by scenario size and tier.
 fn policy(s: &Scn, thorough: bool) -> (u32, usize) {
     let nt = s.threads.len();
@@ -1464,13 +1629,25 @@ pub fn tasks(prop: &str, tier: Tier) -> Vec<Task> {
                     thorough,
                 );
             }
+            if prop == "C06" {
+                push_matrix(&mut t, thorough);
+            }
             if prop == "C06" || prop == "C03" {
                 // structural scenarios end with the same probe
                 push_all(&mut t, c11_scenarios(ns_q, false), thorough);
                 push_all(&mut t, c12_scenarios(&[2]), thorough);
             }
         }
-        "C04" => push_all(&mut t, c04_scenarios(ns), thorough),
+        "C04" => {
+            push_all(&mut t, c04_scenarios(ns), thorough);
+            for x in t.iter_mut() {
+                if x.scn.name.starts_with("c04-retry-inside-one-call") {
+                    // needs five alternations: thorough only goes that deep
+                    x.c = if thorough { 5 } else { 3 };
+                    x.shards = if thorough { 16 } else { 2 };
+                }
+            }
+        }
         "C05" => {
             push_all(&mut t, c05_scenarios(ns), thorough);
             push_all(&mut t, c04_scenarios(ns_q), thorough);
@@ -1513,17 +1690,25 @@ pub fn tasks(prop: &str, tier: Tier) -> Vec<Task> {
             }
         }
         "C10" => {
+            push_matrix(&mut t, thorough);
             push_all(&mut t, c10_scenarios(ns, false), thorough);
             if thorough {
                 push_all(&mut t, c10_scenarios(ns_q, true), true);
             }
         }
         "C11" => {
+            push_matrix(&mut t, thorough);
             push_all(&mut t, c11_scenarios(ns, false), thorough);
             push_all(&mut t, c11_scenarios(if thorough { ns_q } else { &[1] }, true), thorough);
         }
-        "C12" => push_all(&mut t, c12_scenarios(ns), thorough),
-        "C13" => push_all(&mut t, c13_scenarios(ns), thorough),
+        "C12" => {
+            push_all(&mut t, c12_scenarios(ns), thorough);
+            push_matrix(&mut t, thorough);
+        }
+        "C13" => {
+            push_all(&mut t, c13_scenarios(ns), thorough);
+            push_matrix(&mut t, thorough);
+        }
         "C14" => {
             {
                 // the move-out futures flavour (default spin counts only)
@@ -1560,10 +1745,14 @@ pub fn tasks(prop: &str, tier: Tier) -> Vec<Task> {
             push_all(&mut t, pair_scenarios(ns_q, &PAIR_STATES_Q, true, traffic_tags), thorough);
             push_all(&mut t, trio_scenarios(ns_q, true, traffic_tags), thorough);
         }
-        "C16" => push_all(&mut t, c16_scenarios(if thorough { ns_q } else { &[1] }), thorough),
+        "C16" => {
+            push_all(&mut t, c16_scenarios(if thorough { ns_q } else { &[1] }), thorough);
+            push_matrix(&mut t, thorough);
+        }
         "C17" => {
             // memory after teardown of concurrent executions with handle churn
             push_all(&mut t, c16_scenarios(&[1]), thorough);
+            push_matrix(&mut t, thorough);
             push_all(&mut t, c12_scenarios(if thorough { ns_q } else { &[1] }), thorough);
             if thorough {
                 push_all(&mut t, c05_scenarios(&[1]), thorough);
